@@ -504,6 +504,7 @@ def clause_verify(R, rule):
         need = {f"s1[{i}]" for i in range(NN)} | {f"s2[{i}]" for i in range(NN)}
         one = (len(sums) == 1 and sums[0][0] and need <= set(sums[0][0]) and all(l.startswith(("s1", "s2")) for l in sums[0][0])
                and sums[0][1] in ((2 * NN, 2 * NN), None) and sums[0][2][0] >= 0)
+        one = False      # withdrawn: see rules/c02.py (a chained sum over reduced representatives would pass)
         R.check(two or one,
                 rule, site + " norm", f"the norm is the sum over all coefficients of (centred s1)^2 (each <= {half}) plus the sum over all coefficients of s2^2",
                 f"sums seen: {sums}", key=f"verify|{N}|norm")
